@@ -157,6 +157,8 @@ def cbmc(b, tier):
         mt = m.get('messageText', '')
         mm = re.search(r'Runtime (?:decision procedure|Solver): ([\d.]+)s', mt)
         if mm: solver_s += float(mm.group(1))
+    if any('out of memory' in e for e in errs):
+        raise Inconclusive('cbmc: solver ran out of memory (limit %s GB) - no verdict: %s' % (mem, h['name']))
     if results is None:
         raise Inconclusive('cbmc produced no result (rc=%s): %s' % (r.returncode, '; '.join(errs)[-1500:] or r.stderr[-500:]))
     b.solver_s = solver_s
